@@ -84,7 +84,7 @@ func mkPool(get func(string) string, metrics engine.Metrics) (*poolRun, error) {
 		Provider:   p,
 		Aggregator: ag,
 		NewGun: func() (core.Gun, error) {
-			return &gun{r: rec, shot: shot, report: phout, ids: ids, panicAt: atoi(get("panic"))}, nil
+			return (&gun{r: rec, shot: shot, report: phout, ids: ids, panicAt: atoi(get("panic"))}).made(), nil
 		},
 		RPSPerInstance: get("shared") == "0",
 		NewRPSSchedule: func() (core.Schedule, error) {
@@ -165,7 +165,12 @@ func runReal(input string) string {
 			started: func() int { return int(metrics.InstanceStart.Get()) }, stop: make(chan struct{}),
 			wait: 300 * time.Microsecond, firstWait: 20 * time.Millisecond, last: -1,
 			fine: m["fine"] == "1", comp: comp, pending: map[int][]string{},
-			sctl: m["sctl"] == "1" && (m["start"] == "" || m["start"] == "once"), finished: func() int { return int(metrics.InstanceFinish.Get()) }}
+			sctl: m["sctl"] == "1" && (m["start"] == "" || m["start"] == "once"), finished: func() int { // (called with rec.mu held)
+				if n := int(metrics.InstanceFinish.Get()); n > rec.gunsClosed {
+					return n
+				}
+				return rec.gunsClosed
+			}}
 		if c.sctl {
 			c.last = -2
 		}
@@ -502,7 +507,7 @@ func gen(r *rand.Rand, tier string) []string {
 	//     before the writer section that starts the next part — while the others drop parts, drain them, start again
 	n = 220
 	if thorough {
-		n = 25000
+		n = 12000
 	}
 	for i := 0; i < n; i++ {
 		inst := 2 + r.Intn(3)
